@@ -495,6 +495,15 @@ func (b *stepBuilder) buildStep(
 		}
 	}
 
+	// The fields may be present but empty (e.g. `command: []` or
+	// `executor: ""`): the step must still have something to execute.
+	if strings.TrimSpace(step.Command) == "" &&
+		strings.TrimSpace(step.CmdWithArgs) == "" &&
+		strings.TrimSpace(step.Script) == "" &&
+		step.ExecutorConfig.Type == "" && step.SubWorkflow == nil {
+		return nil, errStepCommandOrCallRequired
+	}
+
 	return step, nil
 }
 
